@@ -644,6 +644,11 @@ inline int unit_main(int argc, char** argv) {
         for (int i = 0; i < u.nin; ++i) { uint32_t b = (uint32_t)strtoull(argv[4 + i], 0, 10); std::memcpy(&in[i], &b, 4); }
         u.f32(in.data(), out.data());
         for (int j = 0; j < u.nout; ++j) put_bits<float>(stdout, out[j]);
+      } else if (!u.f64) {       // light unit (float instance only): evaluate at float, report the results as doubles
+        std::vector<float> in(u.nin), out(u.nout);
+        for (int i = 0; i < u.nin; ++i) { uint64_t b = strtoull(argv[4 + i], 0, 10); double d; std::memcpy(&d, &b, 8); in[i] = (float)d; }
+        u.f32(in.data(), out.data());
+        for (int j = 0; j < u.nout; ++j) put_bits<double>(stdout, (double)out[j]);
       } else {
         std::vector<double> in(u.nin), out(u.nout);
         for (int i = 0; i < u.nin; ++i) { uint64_t b = strtoull(argv[4 + i], 0, 10); std::memcpy(&in[i], &b, 8); }
